@@ -254,6 +254,21 @@ def setDimensionAt (sys : List Comp) (i : Nat) (key : String) (v : Rat) (cold re
       | some t => (setDimension t k v cold).map (fun t' => sys.set j t')
     | _, _ => (setDimension c key v cold).map (fun c' => sys.set i c')
 
+/-- `getDimension(key, Tc=T)`: every component met along the link chain is evaluated with ITS material's
+expansion factor at the given temperature `T` (the `Tc` argument is passed through `resolveDimension`), not
+at its own current temperature.  `factorsAtTc[i]` is `getThermalExpansionFactor(Tc=T)` of component `i`. -/
+def atTemperature (factorsAtTc : List (Option Rat)) (sys : List Comp) : List Comp :=
+  (sys.zip factorsAtTc).map (fun p => { p.1 with factor := p.2 })
+
+def getDimensionTc (sys : List Comp) (factorsAtTc : List (Option Rat)) (fuel i : Nat) (key : String) : Option Rat :=
+  getDimension (atTemperature factorsAtTc sys) fuel i key false
+
+/-! ## the derived (left-over) shape: `DerivedShape.getComponentArea` -/
+
+/-- `parent.getMaxArea() − Σ sibling areas`, at whatever condition (current, cold, or `Tc`) the sibling areas
+and the block's max area are taken.  The derived component's own temperature does not enter. -/
+def derivedArea (maxArea : Rat) (sibAreas : List Rat) : Rat := maxArea - sibAreas.foldr (· + ·) 0
+
 /-! ## rational square root for the driver (Helix); precision 10^-30 relative to the scale of the input -/
 
 def sqrtApprox (q : Rat) : Rat :=
